@@ -215,3 +215,45 @@ Definition mk_state (fmt : N) (filemode : bool) (idxtime : N)
 
 Definition c27_run (s : state) : out :=
   OOk (map out_rec (status s (sort_paths (all_paths s)))).
+
+(* ------------------------------------------------------------ the metadata shortcut over time *)
+
+(* one tracked file and the index file, under a clock of arbitrary granularity:
+   a write stamps the file with the current time; staging records the file's
+   (content, size, mtime) and rewrites the index now; TouchIndex rewrites the
+   index for some other path and copies this entry unchanged (go-git's index
+   writer; git would "smudge" a racily clean entry here) *)
+Inductive tl_event := TTick | TWrite (cid size : N) | TStage | TTouchIndex.
+
+Record tl_state := mkTL {
+  tl_clock : N;
+  tl_file : N * N * N;               (* content id, size, mtime *)
+  tl_entry : option (N * N * N);     (* staged content id, size, mtime *)
+  tl_idxtime : N }.
+
+Definition tl_step (s : tl_state) (e : tl_event) : tl_state :=
+  match e with
+  | TTick => mkTL (tl_clock s + 1) (tl_file s) (tl_entry s) (tl_idxtime s)
+  | TWrite c sz => mkTL (tl_clock s) (c, sz, tl_clock s) (tl_entry s) (tl_idxtime s)
+  | TStage => mkTL (tl_clock s) (tl_file s) (Some (tl_file s)) (tl_clock s)
+  | TTouchIndex => mkTL (tl_clock s) (tl_file s) (tl_entry s) (tl_clock s)
+  end.
+
+Definition tl_run (s : tl_state) (h : list tl_event) : tl_state := fold_left tl_step h s.
+
+(* metadataMatches on this state (mode left aside): size, mtime, racy check *)
+Definition tl_matches (s : tl_state) : bool :=
+  match tl_entry s with
+  | Some (_, esz, emt) =>
+    let '(_, sz, mt) := tl_file s in (sz =? esz) && (mt =? emt) && (mt <? tl_idxtime s)
+  | None => false
+  end.
+
+Definition tl_same_content (s : tl_state) : bool :=
+  match tl_entry s with
+  | Some (ec, _, _) => let '(c, _, _) := tl_file s in c =? ec
+  | None => false
+  end.
+
+Definition tl_no_touch (h : list tl_event) : bool :=
+  forallb (fun e => match e with TTouchIndex => false | _ => true end) h.
